@@ -8,6 +8,7 @@ apply(op, t, m) -> Res(t2, m2, inplace, order, monitor_errors)
   raises ExpectRefusal   the model says the implementation must refuse; carries the thunk
 """
 import copy
+import os
 
 import numpy as np
 
@@ -74,6 +75,44 @@ def start_tables():
                                  [{'g': 'u'}, {'g': 'u'}, {'g': 'v'}]),
                    M(['o1', 'o2'], ['a', 'b', 'c'], D3, [{'k': '1'}, {'k': '2'}],
                      [{'g': 'u'}, {'g': 'u'}, {'g': 'v'}]))
+    return S
+
+
+def loaded_start_tables():
+    """tables that were *read from a file* rather than constructed: a reader may leave ids, metadata values and the
+    matrix in other types / layouts than the constructor does, and every operation must cope with that"""
+    import io
+    import h5py
+    from biom import Table
+    base = start_tables()
+    S = {}
+
+    def via_h5(name):
+        def thunk():
+            t = base[name][0]()
+            fh = h5py.File('ops-start-%d-%d.h5' % (os.getpid(), id(t)), 'w', driver='core', backing_store=False)
+            try:
+                t.to_hdf5(fh, 'verif')
+                return Table.from_hdf5(fh)
+            finally:
+                fh.close()
+        return thunk
+
+    def via_json(name):
+        def thunk():
+            import json
+            t = base[name][0]()
+            return Table.from_json(json.loads(t.to_json('verif')))
+        return thunk
+
+    def via_tsv(name):
+        def thunk():
+            t = base[name][0]()
+            return Table.from_tsv(t.to_tsv().splitlines(), None, None, lambda x: x)
+        return thunk
+    S['h5:md3x3'] = (via_h5('md3x3'), base['md3x3'][1])
+    S['json:int2x3'] = (via_json('int2x3'), base['int2x3'][1])
+    S['tsv:plain3x3'] = (via_tsv('plain3x3'), base['plain3x3'][1])
     return S
 
 
